@@ -432,7 +432,8 @@ def finish_l1(v, tier, seed, mc, stats, rule, btree=None):
                rule=rule + " distinct_nontrivial = commits whose every page write was decoded and checked",
                samples=stats.get("samples") or [stats.get("configs")],
                model=dict(module="PageStore", states=mc["states"], transitions=mc["transitions"]),
-               recorded=dict((k, stats.get(k)) for k in ("events", "writes", "commits", "traces", "replays", "behaviours")),
+               recorded=dict((k, stats.get(k)) for k in ("events", "writes", "commits", "traces", "replays", "behaviours",
+                                                          "strict_probe") if stats.get(k) is not None),
                generated=stats.get("configs"), exhaustive=False)
     add_btree(cov, btree)
     return v.finish(tier, seed, "model_checking", cov, L1_ASSUME)
@@ -621,10 +622,12 @@ def check_C11(tier, seed):
                 for i, (p, ps) in enumerate([("two", "1"), ("overflow", "0"), ("three", "1"), ("two", "0"),
                                              ("longkey", "1"), ("hibytes", "0"), ("empty", "1"), ("huge", "0")])]
     samples = []
+    # a free list of more than one page that keeps its page count over the faulted commits
+    srcs.append(dict(profile="overflow", seed=0, len=0, nkeys=64, nvals=6, args=["--presized", "0"], synthetic="bigfree"))
     for r in srcs:
-        steps = fault.history_from_random(r, "C11")
+        steps = fault.history_bigfree(r["nkeys"], r["nvals"]) if r.get("synthetic") else fault.history_from_random(r, "C11")
         np = ["--num-pages", "16384"] if r["args"][-1] == "1" else ["--num-pages", "4"]
-        summ, st = fault.fault_runs(v, r, steps, "C11-%s" % r["profile"], extra=np)
+        summ, st = fault.fault_runs(v, r, steps, "C11-%s%s" % (r["profile"], r.get("synthetic", "")), extra=np)
         tot["runs"] += summ["runs"]
         tot["commits"] += summ["commits"]
         for k, n in summ["outcomes"].items():
@@ -1004,6 +1007,19 @@ def check_C06(tier, seed):
                 for j, nk in enumerate([10, 30])]
     l1_gens(v, gens, "C06", stats, scope=c06_scope, sync_rule="1")
     l1_runs(v, runs, "C06", stats, scope=c06_scope, sync_rule="1")
+    # "a call that returns an error changes nothing" for commit itself: a commit refused by the strict-mode check
+    # (provoked by damage in a bucket the transaction never reads) must leave headers and content as they were
+    out = os.path.join(scratch(), "strict-probe.json")
+    p = run_jvh(["strict-probe", "--out", out, "--rounds", 6 if tier == "quick" else 40])
+    if p.returncode != 0:
+        v.report({"kind": "hang" if p.returncode == 86 else "abort", "rc": p.returncode, "at": "strict-probe"},
+                 {"stderr": p.stderr[-1200:], "how": "jvh strict-probe"})
+        probe = dict(tried=0, refused_commits=0)
+    else:
+        probe = json.load(open(out))
+        for pr in probe.pop("problems"):
+            v.report({"kind": "strict-probe", "what": pr["what"]}, {"problem": pr, "how": "jvh strict-probe --out <file>"})
+    stats["strict_probe"] = probe
     mc2 = dict(states=mc["states"] + mckv["states"], transitions=mc["transitions"] + mckv["transitions"],
                configs=mc["configs"] + [dict(cfg="MC_KV", states=mckv["states"])])
     return finish_l1(v, tier, seed, mc2, stats,
@@ -1015,7 +1031,8 @@ def check_C06(tier, seed):
                      "re-opens. Trace_KV validates every result; Trace_Page requires: no write / header write outside a commit, file "
                      "hash and length unchanged around every rollback, read-only transaction, failed call and re-open, shared free "
                      "list unchanged by a rollback, and the transactions after a rollback allocate exactly as the free list without "
-                     "it allows.")
+                     "it allows. Probe: a strict-mode commit refused by the library's own check (damage in an unrelated bucket) "
+                     "leaves both headers and the visible content unchanged, on the same handle and after reopening.")
 
 
 def pairwise(params):
